@@ -21,7 +21,8 @@ PDecls == { <<>>, <<<<PP, U1>>>>, <<<<PP, U2>>>> }
 QDecls == { <<>>, <<<<QQ, U1>>>> }
 DeclSets == { a \o b \o c : a \in DefaultDecls, b \in PDecls, c \in QDecls }
 At(pre, v) == [pre |-> pre, loc |-> Cp("x"), v |-> Cp(v)]
-AttrSets == { <<>>, <<At(<<>>, "1")>>, <<At(PP, "2")>>, <<At(<<>>, "1"), At(PP, "2")>>, <<At(QQ, "1")>> }
+AttrSets == { <<>>, <<At(<<>>, "1")>>, <<At(PP, "2")>>, <<At(<<>>, "1"), At(PP, "2")>>, <<At(QQ, "1")>>,
+              <<At(XmlPre, "2")>> }                      \* xml:x - the xml prefix is bound without any declaration
 Prefs == { <<>>, PP, QQ }
 El(p, pre, decls, attrs) == [p |-> p, pre |-> pre, loc |-> Cp("a"), decls |-> decls, attrs |-> attrs]
 
@@ -61,7 +62,7 @@ Tests(pre) ==
      AbsP(<<St("child", [k |-> "any"]), St("namespace", [k |-> "any"])>>),                          \* /*/namespace::*
      [t |-> "filt", e |-> AbsP(<<Dos, St("child", [k |-> "any"])>>), preds |-> <<[t |-> "fn", name |-> "last", args |-> <<>>]>>,
       steps |-> <<St("namespace", [k |-> "any"])>>] >>                                             \* (//*)[last()]/namespace::*                    \* //namespace::*
-Bindings == << <<<<II, U1>>>>, <<<<II, U2>>>> >>
+Bindings == << <<<<II, U1>>>>, <<<<II, U2>>>>, <<<<II, XmlUri>>>> >>
 Sty == [abbrev |-> TRUE, ws |-> 0, parens |-> FALSE]
 
 Results(d, pre, binds) == [q \in 1..Len(Tests(pre)) |-> EvalTop(d, Tests(pre)[q], binds)]
